@@ -183,8 +183,82 @@ fn anim_files() {
     println!("  cause: anim.rs parse_legacy() is a placeholder (always one empty section with id 1); AnimSection::parse() derives the bone count from the entry size, which includes the key-frame payload");
 }
 
+fn parse(b: &[u8]) -> M2Model {
+    M2Model::parse(&mut Cursor::new(b)).expect("parse")
+}
+
+fn shared_ranges() {
+    println!("--- shared-ranges: Vanilla file, one bone whose translation and rotation tracks point at ONE ranges block (as real pre-WotLK models do)");
+    let (seed, n) = crate::share::make(256, &["bones"], &[], 2, 1, 0, &[emit::RANGES], 0);
+    let s = emit::emit(&seed);
+    let w1 = write(&parse(&s)).expect("write");
+    let (hs, h1) = (walker::header(&s).unwrap(), walker::header(&w1).unwrap());
+    let (a, b) = (walker::tracks(&s, &hs, "bones").unwrap(), walker::tracks(&w1, &h1, "bones").unwrap());
+    println!("  {n} shared array(s); key frames of all bone tracks after parse→write identical to the seed: {}   (expected true)", a == b);
+    let w2 = write(&parse(&w1)).expect("write");
+    println!("  second write byte-identical: {}   (expected true)", w1 == w2);
+}
+
+fn shared_longer_member() {
+    println!("--- shared-longer-member: two animated values at the SAME offset, the first with 1 timestamp, the second with 2");
+    let (seed, _) = crate::share::make(256, &["transparency_animations"], &[], 2, 1, 3, &[emit::TIMES], 2);
+    let s = emit::emit(&seed);
+    let w1 = write(&parse(&s)).expect("write");
+    let (hs, h1) = (walker::header(&s).unwrap(), walker::header(&w1).unwrap());
+    let t = |b: &[u8], h: &walker::Hdr| walker::tracks(b, h, "transparency_animations").unwrap()[1][0].times.clone();
+    println!("  seed file : record 1 timestamps = {:?}", t(&s, &hs));
+    println!("  rewritten : record 1 timestamps = {:?}   (expected unchanged)", t(&w1, &h1));
+    println!("  cause: model.rs write(): offset_map / written_offsets are keyed by the original offset only; the first (shorter) array is written and the longer one re-uses its new offset with its own count");
+}
+
+fn ranges_without_keys() {
+    println!("--- ranges-without-keys: texture animation whose first value has 1 range but no timestamps / values");
+    let mut seed = emit::make_seed(256, &["texture_animations"], 1, 0, 0);
+    seed.tracks.get_mut("texture_animations").unwrap()[0][0].ranges = Some(emit::pattern(1, 8));
+    let s = emit::emit(&seed);
+    let w1 = write(&parse(&s)).expect("write");
+    let (hs, h1) = (walker::header(&s).unwrap(), walker::header(&w1).unwrap());
+    let t = |b: &[u8], h: &walker::Hdr| walker::tracks(b, h, "texture_animations").unwrap()[0][0].ranges.clone();
+    println!("  seed file : ranges = {:?}", t(&s, &hs));
+    println!("  rewritten : ranges = {:?}   (expected unchanged)", t(&w1, &h1));
+    println!("  cause: model.rs collect_*_track_data(): a track is skipped when timestamps and values are empty, its ranges are never read; write() then resets the whole block");
+}
+
+fn emitter_subarrays() {
+    println!("--- emitter-subarrays: ribbon emitter with a 1-element texture index list and a 2-element material index list");
+    let mut seed = emit::make_seed(264, &["ribbon_emitters"], 1, 1, 0);
+    seed.subarrays.insert(("ribbon_emitters", 0), vec![vec![0x42, 0x22], vec![1, 0, 2, 0]]);
+    let s = emit::emit(&seed);
+    let w1 = write(&parse(&s)).expect("write");
+    let show = |b: &[u8]| {
+        let h = walker::header(b).unwrap();
+        let (rec, _, _) = walker::section(b, &h, "ribbon_emitters").unwrap();
+        let (c, o) = (walker::u32at(rec, 16).unwrap() as usize, walker::u32at(rec, 20).unwrap() as usize);
+        format!("texture indices (count {c}, offset {o}) -> {:02x?} (file has {} bytes)", b.get(o..o + 2 * c), b.len())
+    };
+    println!("  seed file : {}", show(&s));
+    println!("  rewritten : {}   (expected the same two bytes)", show(&w1));
+    println!("  cause: M2RibbonEmitter / M2ParticleEmitter keep only the M2Array header of these lists; model.rs write() emits the record with the offset of the source file and never writes the payload");
+}
+
+fn orphan_bone_ranges() {
+    println!("--- orphan-bone-ranges: Vanilla file with one keyed bone, converted to WotLK");
+    let seed = emit::make_seed(256, &["bones"], 1, 1, 0);
+    let s = emit::emit(&seed);
+    let c = parse(&s).convert(M2Version::WotLK).expect("convert");
+    let wc = write(&c).expect("write");
+    let w2 = write(&parse(&wc)).expect("write");
+    println!("  write(convert(p)) = {} bytes, write(parse(write(convert(p)))) = {} bytes   (expected equal)", wc.len(), w2.len());
+    println!("  cause: model.rs write(): the ranges bytes kept in raw_data.bone_animation_data are emitted (and the running offset advanced) although the 88-byte WotLK+ bone record cannot reference them");
+}
+
 pub fn run(which: &str) {
-    let all: [(&str, fn()); 10] = [
+    let all: [(&str, fn()); 15] = [
+        ("shared-ranges", shared_ranges),
+        ("shared-longer-member", shared_longer_member),
+        ("ranges-without-keys", ranges_without_keys),
+        ("emitter-subarrays", emitter_subarrays),
+        ("orphan-bone-ranges", orphan_bone_ranges),
         ("texture-name", texture_name),
         ("combiner-flag", combiner_flag),
         ("event-ranges", event_ranges),
